@@ -271,8 +271,8 @@ def search_rename(ctx: Ctx) -> SearchResult:
 				res.findings.append(f)
 
 	# 2. generated programs × adversarial renamings
-	n_prog = ctx.scale(36, 170)
-	per_prog = ctx.scale(3, 4)
+	n_prog = ctx.scale(36, 150)
+	per_prog = ctx.scale(3, 5)
 	for origin, src, tag in program_stream(ctx, rng, n_prog):
 		try:
 			domain = c08gen.renaming_domain(src, reserved)
@@ -283,9 +283,13 @@ def search_rename(ctx: Ctx) -> SearchResult:
 			hist[f'{tag}:outside-input-language'] += 1
 			continue
 		idents = set(c08gen.IDENT_RE.findall(src))
+		ties = c08gen.structural_peers(src)
 		for j in range(per_prog):
-			how = None if j else len(domain)   # first renaming of a program renames everything
-			mapping = c08gen.make_renaming(rng, domain, idents, reserved, how)
+			# first renaming of a program renames everything; the second and third build their new names from OTHER identifiers of the same
+			# kind (prefix + existing, existing + suffix: Box.Item -> Box.BoxItem, CRIMSON -> DARK_RED); the rest are free
+			related = j in (1, 2)
+			how = len(domain) if j == 0 else (rng.choice([1, 1, 2, 3]) if related else None)
+			mapping = c08gen.make_renaming(rng, domain, idents, reserved, how, related=related, ties=ties)
 			if not mapping:
 				continue
 			assert legal_renaming(src, mapping, reserved), mapping
@@ -293,6 +297,8 @@ def search_rename(ctx: Ctx) -> SearchResult:
 			sig = f'{hash(src)}:{sorted(mapping.items())}'
 			seen.add(sig)
 			hist[f'{tag}:|r|={min(len(mapping), 9) if len(mapping) < len(domain) else "all"}'] += 1
+			if related:
+				hist['renaming:built-from-same-kind-identifiers'] += 1
 			for b_name in mapping.values():
 				hist[f'fresh:{c08gen.relation_of(b_name, idents)}'] += 1
 			for a_name in mapping:
